@@ -226,7 +226,13 @@ def main():
                 r["playback"] = {"mode": "model", "status": "skipped", "detail": "--no-playback"}
             else:
                 core.log(f"  {h.name}: replaying the counterexample natively (cargo kani playback) ...")
-                st, detail = core.native_playback(h, r["violations"][0])
+                v0 = r["violations"][0]
+                # a second CBMC run for this one property without formula slicing: complete list of inputs
+                r2 = core.run_harness(h, meta[h.path], tag="-replay", only_property=v0["name"])
+                full = [f for f in r2.get("failures", []) if f["name"] == v0["name"] and f.get("inputs")]
+                if full:
+                    v0["inputs"] = full[0]["inputs"]
+                st, detail = core.native_playback(h, v0)
                 r["playback"] = {"mode": "native", "status": st, "detail": detail}
                 core.log(f"  {h.name}: native playback: {st} {detail}")
                 if st == "not-reproduced" and all(v["class"] != "M" for v in r["violations"]):
